@@ -236,7 +236,7 @@ func strmParseSpec(f []string) (*strmSpec, error) {
 	n, e2 := strconv.Atoi(f[2])
 	p, e3 := strconv.Atoi(f[3])
 	seed, e4 := strconv.ParseInt(f[5], 10, 64)
-	if e1 != nil || e2 != nil || e3 != nil || e4 != nil || n < 1 || n > 64 || p < 1 || p > 64 || from < strmMargin || from > 1<<30 {
+	if e1 != nil || e2 != nil || e3 != nil || e4 != nil || n < 1 || n > 1200 || p < 1 || p > 64 || from < strmMargin || from > 1<<30 {
 		return nil, errors.New("numbers")
 	}
 	s.from, s.n, s.p, s.seed, s.lazy = uint32(from), n, p, seed, f[4] == "1"
@@ -1072,7 +1072,13 @@ func (r *Runner) strmAdd(res *strmResult, tag string) {
 	}
 	args := append(append([]string{}, res.spec...), res.events)
 	c := &Case{Op: "stream.validate", Args: args, Go: "ok valid", Mode: Full, Direct: res.direct, NonTrivial: true, Tag: tag}
-	if len(res.spec) == 9 && (strings.Contains(res.spec[6], ":w") || res.spec[0] == "z") {
+	long := false
+	if len(res.spec) == 9 {
+		if n, err := strconv.Atoi(res.spec[2]); err == nil && n > 64 {
+			long = true // a trace of thousands of events: the Go-side oracles and the ordering-buffer model only
+		}
+	}
+	if len(res.spec) == 9 && (strings.Contains(res.spec[6], ":w") || res.spec[0] == "z" || long) {
 		// a sibling block is an environment behaviour the transition system does not have (its buffer is a
 		// list of heights, not a map keyed by previous-hash): these runs are judged by the Go-side oracles alone;
 		// so are the scans without a script to look for (the transition system has no such parameter)
@@ -1092,7 +1098,7 @@ func (r *Runner) strmAdd(res *strmResult, tag string) {
 	r.Add(c)
 	// ordered streaming without cancel and without RPC errors (none, or non-linking blocks only): the outcome is
 	// also the one of the map-level model of the ordering buffer
-	if c.Op == "stream.validate" && len(res.spec) == 9 && res.spec[0] == "o" && res.spec[7] == "-" && !res.crashed && res.detail == "" &&
+	if (c.Op == "stream.validate" || (long && c.Op == "stream.direct")) && len(res.spec) == 9 && res.spec[0] == "o" && res.spec[7] == "-" && !res.crashed && res.detail == "" &&
 		(res.spec[6] == "-" || strmOnlyLinkFaults(res.spec[6])) && res.spec[2] != "1" {
 		r.Add(&Case{Op: "reorder.run", Args: append([]string{}, args...), Go: strmObservedOutcome(res.events), Mode: Full, NonTrivial: true, Tag: tag + " / ordering buffer"})
 	}
@@ -1436,6 +1442,17 @@ func runC16(r *Runner) string {
 	}
 	cmds = append(cmds, fmt.Sprintf("dfs e 520 3 2 0 %d - - - 3000", seedBase+3))
 	r.strmBatch(cmds, "scans that start from an empty set", 1)
+
+	// 2f. long scans: more than a thousand blocks through one scanner (whatever the scanner remembers per height
+	// or per request has been used more than a thousand times by the end)
+	cmds = nil
+	for i, mode := range []string{"o", "u", "x"} {
+		cmds = append(cmds, fmt.Sprintf("run %s %d 1100 %d 0 %d - - -", mode, 600+i, 3+i%2, seedBase+1100))
+	}
+	if r.thorough {
+		cmds = append(cmds, fmt.Sprintf("run o 700 1100 4 0 %d b1050:n - -", seedBase+1101), fmt.Sprintf("run x 701 1100 2 0 %d h1090:r - -", seedBase+1102))
+	}
+	r.strmBatch(cmds, "long scans (1100 blocks)", 1)
 
 	// 3. seeded random schedules of larger configurations
 	cmds = nil
